@@ -157,9 +157,23 @@ def queryJ (d : Reader.Data) (q : Json) : Except String Json := do
 def entryJ (e : Entry) : Json :=
   Json.mkObj [("key", natJ e.key), ("fid", natJ e.frame.fid), ("vars", pairsJ e.vars)]
 
+def enodeOf (j : Json) : Except String ENode := do
+  let tb ← (← jarr j "tb").toList.mapM frameOf
+  let cause := (jopt j "cause").bind fun v => (v.getNat?).toOption
+  let context := (jopt j "context").bind fun v => (v.getNat?).toOption
+  pure ⟨tb, cause, context, ← jbool j "suppress"⟩
+
 def handle (j : Json) : Except String Json := do
   let op ← jstr j "op"
   match op with
+  | "chain" =>
+    -- the exception chain as an object graph (links are indices, cycles allowed), walked with the visited set
+    let c ← jobj j "cfg"
+    let cfg : Cfg := { d7fixed := ← jbool c "d7", d2fixed := ← jbool c "d2" }
+    let g ← (← jarr j "nodes").toList.mapM enodeOf
+    let start := (jopt j "start").bind fun v => (v.getNat?).toOption
+    pure (Json.mkObj [("fids", Json.arr ((allFramesG cfg g start).map fun f => natJ f.fid).toArray),
+                      ("visited", Json.arr ((visitG cfg g (g.length + 1) [] start).map natJ).toArray)])
   | "save" =>
     let c ← jobj j "cfg"
     let cfg : Cfg := { d7fixed := ← jbool c "d7", d2fixed := ← jbool c "d2" }
